@@ -304,9 +304,10 @@ def checkIno (d : Db) (site : Site) (sess : Nat) (pres : List Smp) : Option Stri
       let all := d.inoAll
       let delAny := d.deleted n
       -- prefix per series: a present sample has every earlier in-order sample of its series present or deleted
-      match pres.find? (fun x => all.any fun y => y.s = x.s ∧ y.t < x.t ∧ !has pres y ∧ !has delAny y) with
+      let missing := all.filter fun y => !has pres y ∧ !has delAny y
+      match pres.find? (fun x => missing.any fun y => y.s = x.s ∧ y.t < x.t) with
       | some x =>
-        let y := (all.find? fun y => y.s = x.s ∧ y.t < x.t ∧ !has pres y ∧ !has delAny y).getD x
+        let y := (missing.find? fun y => y.s = x.s ∧ y.t < x.t).getD x
         some s!"inorder-gap {site.tag} session={sess} missing={y.show} but-present={x.show}"
       | none => none
 
